@@ -187,6 +187,12 @@ class CallGraph:
                 elif isinstance(r, tuple) and r[0] == "const":
                     for fr in self._funcs_in_table(r[2], r[1], r[3] if len(r) > 3 else None):
                         self._add(f, "ref", fr, n)
+                elif isinstance(n, ast.Attribute) and isinstance(n.value, ast.Name) and n.value.id in ("self", "cls") \
+                        and f.cls is not None and self._methods_on(f.cls, n.attr) and \
+                        "property" not in (f.cls.find_method(n.attr).decorator_names() if f.cls.find_method(n.attr) else []):
+                    # bound-method reference (callbacks, parse tables): self._read_section
+                    for m in self._methods_on(f.cls, n.attr):
+                        self._add(f, "ref", m, n)
                 elif isinstance(n, ast.Attribute) and isinstance(n.value, ast.Name) and n.value.id == "self" \
                         and f.cls is not None:
                     for c in f.cls.mro():
